@@ -223,12 +223,25 @@ def is_version_floor(analysis: Analysis, res: RuleResult, rule: str) -> None:
     floor = None
     for n in ast.walk(info.node):
         if isinstance(n, ast.If) and isinstance(n.test, ast.Compare) and len(n.test.ops) == 1:
-            l, r = unparse(n.test.left), unparse(n.test.comparators[0])
+            def av_const(e):
+                """`AwesomeVersion("1.4")` or `AwesomeVersion(NAME)` with NAME a module-level string constant."""
+                if isinstance(e, ast.Call) and unparse(e.func).split(".")[-1] == "AwesomeVersion" and len(e.args) == 1:
+                    a = e.args[0]
+                    if isinstance(a, ast.Name) and isinstance(info.module.assigns.get(a.id), ast.Constant):
+                        a = info.module.assigns[a.id]
+                    if isinstance(a, ast.Constant) and isinstance(a.value, str):
+                        return a.value
+                return None
+
+            def av_value(e):
+                return isinstance(e, ast.Call) and unparse(e.func).split(".")[-1] == "AwesomeVersion" and len(e.args) == 1 and av_const(e) is None
+
+            le, re_ = n.test.left, n.test.comparators[0]
             op = type(n.test.ops[0]).__name__
             raises = any(isinstance(x, ast.Raise) for x in ast.walk(n))
-            for const_side, val_side, ops in ((l, r, ("Gt",)), (r, l, ("Lt",))):
-                if const_side.startswith("AwesomeVersion('") and val_side.startswith("AwesomeVersion(") and op in ops and raises:
-                    floor = const_side[len("AwesomeVersion('") : -2]
+            for const_side, val_side, ops in ((le, re_, ("Gt",)), (re_, le, ("Lt",))):
+                if av_const(const_side) is not None and av_value(val_side) and op in ops and raises:
+                    floor = av_const(const_side)
     res.add(rule, "validation:is_version: rejects versions below 1.4", floor == "1.4", common.where(analysis, info, info.node), f"lower bound {floor!r}")
 
 
@@ -237,6 +250,8 @@ def _to_desc(v) -> dict:
     if isinstance(v, ExtObj):
         if v.cls == "refl.validator":
             return ast.literal_eval(v.args[0].value)
+        if v.cls == "vol.validator" and getattr(v, "built", None) is not None:
+            return _to_desc(v.built)  # a module-level validator object: described by how it was built
         short = v.cls.split(".", 1)[1] if v.cls.startswith("vol.") else v.cls
         if short in ("All", "Any"):
             return {"k": short, "v": [_to_desc(a) for a in v.args]}
